@@ -18,7 +18,7 @@ MOD = "mc.props.c17"
 STORAGES = ("csv", "ods", "xlsx")
 FORMATS = ("delimited", "ods", "excel")
 FIELD_SETS = [["id", "name"], ["amount", "day", "kind", "id"], ["code", "tag", "const", "num"], ["kind", "note", "name"], ["day", "amount"], ["id", "amount", "day", "code", "tag", "const", "name"],
-              ["num", "kind", "id"], ["const", "name"], ["tag", "id"], ["note", "amount", "name"]]
+              ["num", "kind", "id"], ["const", "name"], ["tag", "id"], ["note", "amount", "name"], ["id", "stamp"], ["stamp", "day", "name"]]
 
 
 def store_rows(rows, storage, name, odf_features=None, sheet=1):
@@ -185,7 +185,7 @@ def run(ctx):
     for base in cidgrammar.base_cids(30 if quick else 300):
         cases.append({"kind": "cid", "rows": base["rows"]})
     table_count = 0
-    for index, fields in enumerate(FIELD_SETS if not quick else FIELD_SETS[:6]):
+    for index, fields in enumerate(FIELD_SETS if not quick else FIELD_SETS[:5] + FIELD_SETS[-2:]):
         for number, (table, has_rejects) in enumerate(tables_for(fields, 12 if quick else 60)):
             cases.append({"kind": "table", "fields": fields, "table": table, "sheet": 1 + (index + number) % 2, "has_rejects": has_rejects})
             table_count += 1
